@@ -78,6 +78,25 @@ def guarded(fn, *args, seconds=20, **kw):
 
 
 # ------------------------------------------------------------------------------------ random generators
+class ChoiceBudget(BaseException):
+    """more rng.choice calls than any correct generation of this molecule can need (deterministic liveness bound)"""
+
+
+class CountingRNG(np.random.Generator):
+    """default_rng(seed) whose `choice` calls are counted against a limit (None = unlimited)"""
+
+    def __init__(self, seed):
+        super().__init__(np.random.PCG64(seed))
+        self.count = 0
+        self.limit = None
+
+    def choice(self, *a, **kw):
+        self.count += 1
+        if self.limit is not None and self.count > self.limit:
+            raise ChoiceBudget(self.count)
+        return super().choice(*a, **kw)
+
+
 class RecordingRNG(np.random.Generator):
     """a real seeded Generator whose `choice` calls are logged"""
 
@@ -106,8 +125,13 @@ class ScriptedRNG(np.random.Generator):
         self.log = []
         self.prob = 1.0
         self.bad_p = []
+        self.count = 0
+        self.limit = None
 
     def choice(self, a, size=None, replace=True, p=None, axis=0, shuffle=True):
+        self.count += 1
+        if self.limit is not None and self.count > self.limit:
+            raise ChoiceBudget(self.count)
         opts = list(a) if not isinstance(a, (int, np.integer)) else list(range(int(a)))
         n = len(opts)
         if p is None:
